@@ -14,6 +14,8 @@
                                        tmp = list(range(M)); random.shuffle(tmp)      (in THIS order)
                                      and then the code path of explicit arguments: Shuffle.shuffle (coq/Shuffle.v)
      cnfgen/utils/parsedimacs.py     from_dimacs_file / to_dimacs_file: Dimacs.parse_dimacs / Dimacs.print_dimacs
+                                     (standard input: lines end at "\n" only, as CPython creates sys.stdin on POSIX;
+                                      a file named by -i: universal newlines)
      cnfgen/formula/basecnf.py       the header of the formula that was read (description 'Formula from DIMACS file <name>',
                                      generator, copyright, url) and Shuffle's change of it: Header.shuffle_header
      Lib/random.py (CPython 3.12.1)  Random.choice(seq)   = seq[self._randbelow(len(seq))]
@@ -486,6 +488,11 @@ Definition shm_input_text (env : shm_env) (o : shm_opts) (stdin : text) : text :
   | Some f => match shm_assoc f (shm_files env) with Some t => t | None => [] end
   end.
 
+(* sys.stdin is created with newline="\n" (no translation: only "\n" ends a line, a lone "\r" does not);
+   a file opened by FileType('r') is in universal-newlines mode *)
+Definition shm_universal (o : shm_opts) : bool :=
+  match so_input o with Some _ => true | None => false end.
+
 Definition shm_word : Z := 9223372036854775808.     (* sys.maxsize + 1 *)
 
 (* everything before the first draw *)
@@ -501,7 +508,7 @@ Definition shm_plan_of (repaired : bool) (env : shm_env) (argv : list text) (std
   | PaOk o =>
     if (match so_input o with Some f => shm_mem f (so_outs o) | None => false end) then PlanStop ShmOutside
     else
-      match parse_dimacs true (shm_input_text env o stdin) with
+      match parse_dimacs (shm_universal o) (shm_input_text env o stdin) with
       | Err _ _ => PlanStop ShmCliError                       (* ValueError -> "c DIMACS ERROR: ..." *)
       | DOk N F =>
         if so_nop o && (shm_word <=? N)
